@@ -152,6 +152,7 @@ type packetState struct {
 	Calls   []string
 	Maps    map[string][]mapEntry
 	Written map[string][]string // setter -> receiver field paths it wrote
+	Will    *packetState        // the will message passed in the last SetWill call, if any
 }
 
 // globalInput resolves loads of package variables from their init-time stores.
@@ -223,7 +224,7 @@ func (p *Prog) abstractArg(ctx *symCtx, setter string, t types.Type, variant int
 	case *types.Basic:
 		switch {
 		case u.Info()&types.IsBoolean != 0:
-			return sv{k: 'b', b: true}, true
+			return sv{k: 'b', b: variant%2 == 0}, true
 		case u.Info()&types.IsString != 0:
 			return sv{k: 's', i: 1 + int64(variant), addr: tag}, true
 		case u.Info()&types.IsInteger != 0:
@@ -303,43 +304,133 @@ func (p *Prog) buildState(tn string, choose func(setter string) int, will *packe
 		return nil, "cannot evaluate the constructor: " + ctx.why
 	}
 	st := &packetState{Type: tn, Recv: rs[0].addr}
+	var altWill *packetState
 	for _, s := range p.settersOf(nt) {
 		variant := choose(s.Name())
 		if variant < 0 {
 			continue
 		}
-		var args []sv
-		args = append(args, rs[0])
-		okArgs := true
-		for i := 0; i < s.Signature.Params().Len(); i++ {
-			pt := s.Signature.Params().At(i).Type()
-			if ptr, isP := pt.Underlying().(*types.Pointer); isP && namedOf(ptr) != nil && namedOf(ptr).Obj().Name() == "Publish" {
-				if will == nil {
-					okArgs = false
-					break
-				}
-				args = append(args, sv{k: 'p', addr: will.Recv})
-				continue
-			}
-			a, ok := p.abstractArg(ctx, s.Name(), pt, variant)
-			if !ok {
-				okArgs = false
-				break
-			}
-			if s.Name() == "SetQoS" {
-				a = sv{k: 'i', i: int64(1 + variant%2)}
-			}
-			args = append(args, a)
+		// modes: variant+stateOverwrite = the setter is first called with another value and then with
+		// the value of `variant`; variant+stateClear = called with the value and then with the zero value
+		mode := 0
+		isAdder := strings.HasPrefix(s.Name(), "Add")
+		switch {
+		case variant >= stateOverwriteRev:
+			variant -= stateOverwriteRev
+			mode = stateOverwriteRev
+		case variant >= stateClear:
+			variant -= stateClear
+			mode = stateClear
+		case variant >= stateOverwrite:
+			variant -= stateOverwrite
+			mode = stateOverwrite
 		}
+		if isAdder {
+			mode = 0
+		}
+		mkArgs := func(variant int, zero bool) ([]sv, bool) {
+			var args []sv
+			args = append(args, rs[0])
+			for i := 0; i < s.Signature.Params().Len(); i++ {
+				pt := s.Signature.Params().At(i).Type()
+				if ptr, isP := pt.Underlying().(*types.Pointer); isP && namedOf(ptr) != nil && namedOf(ptr).Obj().Name() == "Publish" {
+					if will == nil || zero {
+						return nil, false
+					}
+					if variant == stateAltVariant {
+						if altWill == nil {
+							altWill, _ = p.buildState("Publish", func(n string) int {
+								switch n {
+								case "SetTopicAlias", "AddSubscriptionID", "SetPacketID", "SetDuplicate":
+									return -1
+								}
+								return 1
+							}, nil)
+							if altWill == nil {
+								return nil, false
+							}
+							for k, v := range altWill.Mem {
+								if _, had := ctx.mem[k]; !had {
+									ctx.mem[k] = v
+								}
+							}
+						}
+						args = append(args, sv{k: 'p', addr: altWill.Recv})
+						continue
+					}
+					args = append(args, sv{k: 'p', addr: will.Recv})
+					continue
+				}
+				var a sv
+				var ok bool
+				if zero {
+					a, ok = zeroArg(pt, fmt.Sprintf("zero:%s", s.Name()))
+				} else {
+					a, ok = p.abstractArg(ctx, s.Name(), pt, variant)
+				}
+				if !ok {
+					return nil, false
+				}
+				if s.Name() == "SetQoS" && !zero {
+					a = sv{k: 'i', i: int64(1 + variant%2)}
+				}
+				args = append(args, a)
+			}
+			return args, true
+		}
+		args, okArgs := mkArgs(variant, false)
 		if !okArgs {
 			continue
+		}
+		noteWill := func(as []sv) {
+			for _, a := range as[1:] {
+				if a.k == 'p' && will != nil && a.addr == will.Recv {
+					st.Will = will
+				}
+				if a.k == 'p' && altWill != nil && a.addr == altWill.Recv {
+					st.Will = altWill
+				}
+			}
+		}
+		if mode == stateOverwriteRev {
+			// the regular value first, the other value last
+			if alt, ok := mkArgs(stateAltVariant, false); ok {
+				if _, ok := ctx.evalPure(s, args, nil, 0); !ok {
+					return nil, "cannot evaluate " + s.Name() + " (first call): " + ctx.why
+				}
+				noteWill(args)
+				args = alt
+				st.Calls = append(st.Calls, fmt.Sprintf("%s#%d", s.Name(), variant))
+			}
 		}
 		before := map[string]sv{}
 		for k, v := range ctx.mem {
 			before[k] = v
 		}
+		if mode == stateOverwrite {
+			if pre, ok := mkArgs(stateAltVariant, false); ok {
+				if _, ok := ctx.evalPure(s, pre, nil, 0); !ok {
+					return nil, "cannot evaluate " + s.Name() + " (first call): " + ctx.why
+				}
+				noteWill(pre)
+			}
+		}
 		if _, ok := ctx.evalPure(s, args, nil, 0); !ok {
 			return nil, "cannot evaluate " + s.Name() + ": " + ctx.why
+		}
+		noteWill(args)
+		if mode == stateClear {
+			if z, ok := mkArgs(0, true); ok {
+				if _, ok := ctx.evalPure(s, z, nil, 0); !ok {
+					return nil, "cannot evaluate " + s.Name() + " (clearing call): " + ctx.why
+				}
+				st.Calls = append(st.Calls, fmt.Sprintf("%s#%d", s.Name(), variant))
+				st.Calls = append(st.Calls, s.Name()+"(zero)")
+				continue
+			}
+		}
+		if mode == stateOverwrite {
+			st.Calls = append(st.Calls, s.Name()+"(other)")
 		}
 		// single-element adders are applied twice, so that lists have two elements
 		if strings.HasPrefix(s.Name(), "Add") && s.Signature.Params().Len() == 1 && !s.Signature.Variadic() {
@@ -375,6 +466,33 @@ func (p *Prog) buildState(tn string, choose func(setter string) int, will *packe
 	st.Mem = ctx.mem
 	st.Maps = ctx.maps
 	return st, ""
+}
+
+const (
+	stateOverwrite    = 1000
+	stateClear        = 2000
+	stateOverwriteRev = 3000
+	stateAltVariant   = 7
+)
+
+// zeroArg: the zero value of a setter parameter (false, 0, empty string, empty non-nil byte slice).
+func zeroArg(t types.Type, tag string) (sv, bool) {
+	switch u := t.Underlying().(type) {
+	case *types.Basic:
+		switch {
+		case u.Info()&types.IsBoolean != 0:
+			return sv{k: 'b', b: false}, true
+		case u.Info()&types.IsString != 0:
+			return sv{k: 's', i: 0, addr: tag}, true
+		case u.Info()&types.IsInteger != 0:
+			return sv{k: 'i', i: 0}, true
+		}
+	case *types.Slice:
+		if isByteSlice(t) {
+			return sv{k: 's', i: 0, addr: tag}, true
+		}
+	}
+	return sv{}, false
 }
 
 // ---------- encoder trace ----------
@@ -737,6 +855,10 @@ type stateSpec struct {
 var payloadList = map[string]string{"Subscribe": "AddFilters", "Unsubscribe": "AddFilter", "SubAck": "AddReasonCode", "UnsubAck": "AddReasonCode"}
 var dependsOnSetter = map[string]string{"Publish.SetPacketID": "SetQoS", "Connect.SetWillDelayInterval": "SetWill"}
 
+// zeroOutsideDomain: setters whose zero argument is outside the C01 domain and is therefore not used when
+// a state is cleared again (subscription identifiers are 1..268 435 455).
+var zeroOutsideDomain = map[string]bool{"Subscribe.SetSubscriptionID": true}
+
 // stateSpecs: none, all, each setter alone, all-but-one, plus the product of
 // the setters that influence presence guards.
 func (p *Prog) stateSpecs(tn string) []stateSpec {
@@ -766,6 +888,9 @@ func (p *Prog) stateSpecs(tn string) []stateSpec {
 			return func(n string) int {
 				if n == "SetWill" {
 					if w == 1 {
+						if v := f(n); v >= stateOverwrite && v < stateClear || v >= stateOverwriteRev {
+							return v // the will message is replaced by another one
+						}
 						return 0
 					}
 					return -1
@@ -792,6 +917,17 @@ func (p *Prog) stateSpecs(tn string) []stateSpec {
 		out = append(out, stateSpec{"none" + wtag, pick(func(string) int { return -1 }), w})
 		out = append(out, stateSpec{"all" + wtag, pick(func(string) int { return 0 }), w})
 		out = append(out, stateSpec{"all(variant)" + wtag, pick(func(string) int { return 1 }), w})
+		out = append(out, stateSpec{"all, each setter called twice (other value first)" + wtag, pick(func(string) int { return stateOverwrite }), w})
+		out = append(out, stateSpec{"all, each setter called twice (other value last)" + wtag, pick(func(string) int { return stateOverwriteRev }), w})
+		out = append(out, stateSpec{"all set, then cleared with zero values" + wtag, pick(func(n string) int {
+			if n == "SetProtocolName" || n == "SetProtocolVersion" {
+				return -1
+			}
+			if zeroOutsideDomain[tn+"."+n] {
+				return 0
+			}
+			return stateClear
+		}), w})
 		for _, one := range names {
 			one := one
 			if one == "SetWill" {
